@@ -136,6 +136,10 @@ def run(repo: Repo, chk: Check):
     r09c(repo, chk)
     r09d(repo, chk)
     chk.guarded(r09e, repo, chk, "R09.e")
+    chk.rule("R09.f", "the register numbers chosen by assign_registers are written into every register object that occurs in the emitted "
+                      "instructions (the set collected from the instruction list), not only into the objects stored in the symbol table: "
+                      "otherwise a virtual name '__register.N_' is printed as an operand", floor=2)
+    chk.guarded(r09f, repo, chk)
 
 
 # ---------------------------------------------------------------------- R09.b
@@ -477,3 +481,44 @@ def r09e(repo: Repo, chk: Check, R="R09.e"):
                   {"expected": want, "got": detail}, s.where())
     if n < 14:
         raise AnalysisError(f"{R}: only {n} device/slot/batch/stack access sites found")
+
+
+# ---------------------------------------------------------------------- R09.f
+def r09f(repo: Repo, chk: Check, R="R09.f"):
+    ra = repo.mod("register_assignment")
+    fn = ra.func("assign_registers")
+    chk.saw("register_assignment", "assign_registers")
+    where = f"{ra.path}:{fn.lineno} in assign_registers"
+    params = [a.arg for a in fn.args.args]
+    code_param = params[1] if len(params) > 1 else None
+    # the set of register objects collected from the instruction list
+    collected = set()
+    for lp in ast.walk(fn):
+        if isinstance(lp, ast.For) and isinstance(lp.iter, ast.Name) and lp.iter.id == code_param:
+            for c in ast.walk(lp):
+                if isinstance(c, ast.Call) and isinstance(c.func, ast.Attribute) and c.func.attr in ("add", "append", "update") and isinstance(c.func.value, ast.Name):
+                    collected.add(c.func.value.id)
+    for st in ast.walk(fn):
+        if isinstance(st, ast.Assign) and len(st.targets) == 1 and isinstance(st.targets[0], ast.Name) and isinstance(st.value, (ast.SetComp, ast.ListComp, ast.Call)) \
+                and any(isinstance(n, ast.Name) and n.id == code_param for n in ast.walk(st.value)) and any(isinstance(g_, ast.comprehension) for g_ in ast.walk(st.value)):
+            collected.add(st.targets[0].id)
+    if not collected:
+        raise AnalysisError("assign_registers: the set of register objects collected from the instruction list was not found")
+    # the mapping: name -> 'r<N>'
+    maps = {st.targets[0].value.id for st in ast.walk(fn) if isinstance(st, ast.Assign) and len(st.targets) == 1 and isinstance(st.targets[0], ast.Subscript)
+            and isinstance(st.targets[0].value, ast.Name) and isinstance(st.value, ast.JoinedStr) and norm(st.value).startswith("f'r{")}
+    if not maps:
+        raise AnalysisError("assign_registers: the table virtual name -> 'r<N>' was not found")
+    chk.ok(R, "register_assignment:assign_registers:register objects are collected from the emitted instructions", {"sets": sorted(collected), "tables": sorted(maps)})
+    for u in sorted(collected):
+        applied = False
+        for lp in ast.walk(fn):
+            # (a second walk over the instruction list itself serves as well)
+            if isinstance(lp, ast.For) and isinstance(lp.iter, ast.Name) and lp.iter.id in (u, code_param):
+                for st in ast.walk(lp):
+                    if isinstance(st, ast.Assign) and any(isinstance(t, ast.Attribute) and t.attr == "code_expr" for t in st.targets) \
+                            and any(isinstance(x, ast.Subscript) and isinstance(x.value, ast.Name) and x.value.id in maps for x in ast.walk(st.value)):
+                        applied = True
+        chk.judge(R, f"register_assignment:assign_registers:the mapping is applied to every object of {u}", applied,
+                  f"no loop over {u} stores {sorted(maps)[0]}[...] into code_expr: a register object that is used by an instruction but is not the object kept in the symbol "
+                  f"table (the register of a batch access, a copy) keeps its virtual name and is printed as '__register.N_'", None, where)
